@@ -56,3 +56,20 @@ func VerifConnSetReadEpoch(c *Conn, e uint16) {
 	defer c.in.Unlock()
 	c.readEpoch = e
 }
+
+// VerifConnSetWriteSeq overwrites the sequence number the next record protected in the current
+// write epoch will carry (a sender may skip ahead; lets the harness reach every part of the
+// 48-bit range, which ordinary traffic reaches only after 2^32 and more records).
+func VerifConnSetWriteSeq(c *Conn, seq uint64) {
+	c.out.Lock()
+	defer c.out.Unlock()
+	c.writeSeq = uint48(seq)
+}
+
+// VerifConnPendingRead returns how many decrypted application bytes the connection holds for
+// the next Read (the remainder of a record the caller's buffer was too small for).
+func VerifConnPendingRead(c *Conn) int {
+	c.in.Lock()
+	defer c.in.Unlock()
+	return len(c.readBuf)
+}
